@@ -754,3 +754,90 @@ func VerifC05_StopWaitsForRunningTask() {
 	rt.Assert(atomic.LoadInt32(m.taskCnt) == 0, "stoptask/task-counter-zero")
 	rt.Reach("stoptask-end")
 }
+
+// ---- a task that was taken up while its module was starting and is given up
+// because the start failed was never running work: it must not disturb the
+// count, or the stop after a later (successful) start no longer waits for a
+// task that is running ----
+
+func VerifC05_StopAfterAbortedTask() {
+	rt.SchedYieldOnly(true)
+	SetStdErrReporting(false)
+	c05Reset()
+	sleepMode.UnSet()
+	taskQueue = list.New()
+	prioritizedTaskQueue = list.New()
+	taskSchedule = list.New()
+	if rt.Symbolic() {
+		taskQueueHandlerStarted.UnSet()
+		taskScheduleHandlerStarted.UnSet()
+	}
+	for len(queueIsFilled) > 0 {
+		<-queueIsFilled
+	}
+	moduleStopTimeout = time.Hour
+	fail := true
+	release := make(chan struct{})
+	t0Ran := false
+	var m *Module
+	submission := rt.Choice("submission", 3)
+	m = initNewModule("m", nil, func() error {
+		if fail {
+			// (the start routine itself creates and submits the task, as start
+			// routines commonly do; the queue comes to it while the start is running)
+			t0 := m.NewTask("t0", func(context.Context, *Task) error { t0Ran = true; return nil }).MaxDelay(0)
+			switch submission {
+			case 0:
+				t0.Queue()
+			case 1:
+				t0.QueuePrioritized()
+			case 2:
+				t0.StartASAP()
+			}
+			<-release
+			return errors.New("start failed")
+		}
+		return nil
+	}, func() error { return nil })
+	m.status = StatusOffline // prepared
+	go func() {
+		for {
+			taskTimeslot <- struct{}{}
+		}
+	}()
+	go taskQueueHandler()
+	reports := make(chan *report, 2)
+	m.start(reports)
+	rt.Quiesce(time.Second) // the handler has taken the task and waits for the start
+	close(release)
+	rep := <-reports
+	rt.Assert(rep.err != nil, "abortedtask/start-reports-the-failure")
+	rt.Quiesce(time.Second) // the handler gives the task up
+	rt.Assert(!t0Ran, "abortedtask/task-of-the-failed-start-not-executed")
+	rt.Assert(atomic.LoadInt32(m.taskCnt) == 0, "abortedtask/given-up-task-is-not-counted")
+	// a later start attempt works
+	fail = false
+	m.start(reports)
+	rep = <-reports
+	rt.Assert(rep.err == nil && m.Status() == StatusOnline, "abortedtask/second-start-ok")
+	entered := make(chan struct{}, 1)
+	returned := false
+	t := m.NewTask("t", func(ctx context.Context, _ *Task) error {
+		entered <- struct{}{}
+		<-ctx.Done()
+		rt.NativePause()
+		for i := 0; i < 3; i++ {
+			rt.Yield()
+		}
+		returned = true
+		return nil
+	}).MaxDelay(0)
+	t.Queue()
+	<-entered
+	m.stop(reports)
+	rep = <-reports
+	rt.Assert(rep.err == nil, "abortedtask/stop-ok")
+	rt.Assert(returned, "abortedtask/running-task-returned-before-the-stop-report")
+	rt.Assert(atomic.LoadInt32(m.taskCnt) == 0, "abortedtask/task-counter-zero-after-stop")
+	rt.Reach("abortedtask-end")
+}
